@@ -39,7 +39,9 @@ import (
 // unintended behavior in codec activity elsewhere in the program.
 type Session struct {
 	builderGenerators sync.Map
-	config            *configuration.Configuration
+	// Types whose generator was generated (not inherited or registered) by this session.
+	generatedTypes sync.Map
+	config         *configuration.Configuration
 }
 
 // Start a new builder session. It will inherit the builders of its parent.
@@ -114,12 +116,20 @@ func (_this *Session) GetBuilderGeneratorForType(dstType reflect.Type) BuilderGe
 	if loaded {
 		return storedBuilderGenerator.(BuilderGenerator)
 	}
+	_this.generatedTypes.Store(dstType, true)
 
 	defer func() {
 		if builderGenerator == nil {
 			// Generating the builder failed (panicked). Don't leave the
 			// placeholder behind: it would block every later user of this type.
-			_this.builderGenerators.Delete(dstType)
+			// Generators that were generated while this one was in progress
+			// (pointer to, slice of, map of this type...) have captured the
+			// placeholder, so drop everything this session has generated.
+			_this.generatedTypes.Range(func(key, value interface{}) bool {
+				_this.builderGenerators.Delete(key)
+				_this.generatedTypes.Delete(key)
+				return true
+			})
 			builderGenerator = func(*Context) Builder {
 				panic(fmt.Errorf("no builder could be generated for type %v", dstType))
 			}
